@@ -86,6 +86,18 @@ func (ec *ErrorCause) croppedJSON() []byte {
 		return nil
 	}
 
+	// The strings were cropped by their raw length; JSON escaping (control
+	// characters, quotes, invalid UTF-8) can still inflate them beyond the
+	// limit. Keep halving them until the serialized form fits.
+	for length := (MaxErrorCauseSizeBytes - paddingForFieldNames) / 4; len(validErrorCauseJSON) > MaxErrorCauseSizeBytes && length >= 8; length /= 2 {
+		cause := compactor.cause()
+		cause.Message = cropString(cause.Message, length)
+		cause.WorkingDir = cropString(cause.WorkingDir, length)
+		if validErrorCauseJSON, err = json.Marshal(cause); err != nil {
+			return nil
+		}
+	}
+
 	return validErrorCauseJSON
 }
 
